@@ -138,10 +138,32 @@ Value gen(uint64_t seed, const std::string& tier)
 {
     Rng g(sim::mix(seed, 0xC18));
     Value p   = Value::object();
-    int mode  = (int)g.below(10);
+    int mode  = (int)g.below(12); // 10,11: user-supplied (explicit) grids through files into setup()
     // 0-3 parameter space (incl. invalid), 4 fault-free round trip, 5 write fault, 6 durable edit, 7 read fault,
     // 8 enumerated crash points, 9 load through GMGPolar::setup
+    if (mode >= 10)
+        mode = 10;
     p["mode"]   = mode;
+    {
+        // explicit grid for mode 10: nr = 2^a * m + 1, ntheta = 2^b * q (q odd or even), so that the admissible level
+        // count is limited by either direction
+        GridSpec e;
+        e.kind   = 1;
+        e.R0     = 1e-5;
+        e.Rmax   = 1.3;
+        static const int ms[] = {1, 2, 3, 5};
+        e.nr     = (1 << g.range(2, 5)) * ms[g.below(4)] + 1;
+        static const int qs[] = {1, 3, 5, 7, 9, 11};
+        e.ntheta = (1 << g.range(1, 5)) * qs[g.below(6)];
+        if (e.ntheta < 4)
+            e.ntheta = 4;
+        e.seed   = g.next() >> 1;
+        e.ratio  = g.chance(0.5) ? 1.0 : g.loguniform(1.0, 8.0);
+        e.midpoint = g.chance(0.5);
+        e.nest   = 1;
+        e.uniform_theta = g.chance(0.5);
+        p["explicit"] = e.to_json();
+    }
     p["params"] = gp_json(gen_gp(g, mode >= 4));
     p["prev"]   = gp_json(gen_gp(g, true)); // the previous generation of the files
     static const int precs[] = {18, 18, 18, 17, 16, 15, 15, 12};
@@ -232,6 +254,96 @@ void run(const Value& plan, Result& r)
     r.signature = fmt("gridfiles mode=%d fault=%s %s", mode, kind.c_str(), p.str().c_str());
     r.probe(fmt("mode_%d", mode));
     SimRun sr(plan.at("sim"), r);
+    if (mode == 10) {
+        /* a user-supplied grid (any radii / angles, ntheta not a power of two) written to files and loaded by setup():
+           the grid must admit the number of levels setup reports, and setup must not reject a grid that admits two */
+        GridSpec e = GridSpec::from_json(plan.at("explicit"));
+        std::unique_ptr<PolarGrid> eg;
+        try {
+            eg = make_grid(e);
+        }
+        catch (const std::exception&) {
+            r.probe("explicit_grid_rejected");
+            return;
+        }
+        r.nontrivial = true;
+        r.signature  = fmt("gridfiles mode=10 explicit %dx%d ratio=%g", eg->nr(), eg->ntheta(), e.ratio);
+        // independent model of the admissible level count: halve while the coarser grid is a valid smoothing-level grid
+        // (integer sizes, nr >= 5, ntheta even and >= 4) -- the rule documented in chooseNumberOfLevels
+        int Lr = 1, Lt = 1;
+        for (int nr = eg->nr(); (nr - 1) % 2 == 0 && (nr + 1) / 2 >= 5; nr = (nr + 1) / 2)
+            Lr++;
+        for (int nt = eg->ntheta(); nt % 2 == 0 && nt / 2 >= 4 && (nt / 2) % 2 == 0; nt /= 2)
+            Lt++;
+        const int Lmax = std::min(Lr, Lt);
+        std::string dir = scratch_dir(), fr = dir + "/radii.txt", ft = dir + "/angles.txt";
+        sim::fs_reset(dir + "/");
+        {
+            CoutCapture cap;
+            eg->writeToFile(fr, ft, 18);
+        }
+        SolverOpts o;
+        o.prob.Rmax  = 1.3;
+        o.R0         = 1e-5;
+        o.threads    = 2;
+        o.verbose    = 0;
+        o.max_iterations = 2;
+        o.max_levels = (int)plan.at("max_levels").as_int(-1);
+        Problem keep;
+        auto s2 = new_solver(o, keep);
+        s2->load_grid_file(true);
+        s2->file_grid_radii(fr);
+        s2->file_grid_angles(ft);
+        bool ok = false;
+        std::string ew;
+        {
+            CoutCapture cap;
+            try {
+                s2->setup();
+                ok = true;
+            }
+            catch (const std::exception& ex) {
+                ew = ex.what();
+            }
+        }
+        r.probe(fmt("model_levels_%d", std::min(Lmax, 5)));
+        const int cap_levels = o.max_levels > 0 ? std::min(o.max_levels, Lmax) : Lmax;
+        if (!ok) {
+            r.probe("setup_rejected_loaded_grid");
+            if (cap_levels >= 2)
+                r.fail("C18.setup_rejects_grid_that_admits_two_levels",
+                       fmt("%dx%d grid admits %d levels (cap %d) but setup() threw '%s'", eg->nr(), eg->ntheta(), Lmax,
+                           o.max_levels, ew.c_str()));
+        }
+        else {
+            r.probe("explicit_grid_set_up");
+            std::vector<Level>& lv = ACC::levels(*s2);
+            const int L            = ACC::number_of_levels(*s2);
+            if (L != cap_levels)
+                r.fail("C18.level_count_differs_from_model",
+                       fmt("%dx%d grid: setup reports %d levels, the grid admits %d (cap %d)", eg->nr(), eg->ntheta(), L,
+                           Lmax, o.max_levels));
+            for (int l = 0; l < (int)lv.size(); l++)
+                if (!invalid_reason(lv[l].grid()).empty()) {
+                    r.fail("C18.level_grid_invalid", fmt("level %d: %s", l, invalid_reason(lv[l].grid()).c_str()));
+                    break;
+                }
+            if (lv[0].grid().nr() != eg->nr() || lv[0].grid().ntheta() != eg->ntheta())
+                r.fail("C18.solver_grid_differs_from_file", r.signature);
+            CoutCapture cap;
+            try {
+                s2->solve();
+                r.probe("explicit_grid_solved");
+            }
+            catch (const std::exception&) {
+                r.fail("C18.solve_throws_on_loaded_grid", r.signature);
+            }
+        }
+        unlink(fr.c_str());
+        unlink(ft.c_str());
+        rmdir(dir.c_str());
+        return;
+    }
     /* ---- generation: accepted or rejected by exception ---- */
     std::unique_ptr<PolarGrid> g;
     {
